@@ -15,6 +15,15 @@ CHECKS = {
     "C12": ("must-pass-through (dominance) on socket constructors, who-may-call on raw socket APIs, argument provenance of timeout settings, canonical dataflow renderings of the timeout wiring",
             "Decides the wiring half of the property: every socket is created through code paths that apply the caller's (or non-zero default) timeouts with read->read and write->write, TCP uses connect_timeout, the HTTP agent gets the three timeouts, the UDP bind address follows the target's family, the URL host is never a bare IpAddr, UDP receive returns exactly buf[..n].",
             TB + "No timing claim is decided (attempts x timeout, scheduling slack, kernel behaviour): that clause needs real sockets and is outside this family.", "DESIGN 4 C12"),
+    "C13": ("allocation-size provenance over MIR: every capacity-taking allocation classified CONST/TYPE/LEN/PARAM by the interval+zone analysis (element layout sizes from rustc), receive-size and send-in-loop rules",
+            "Enumerates every with_capacity / vec![x; n] / reserve-style site of the library and requires its size operand to be bounded by a constant, an integer type/mask/min (<= 16 MiB with the element's layout size) or the length of data already held; receive buffers must be bounded constants; sends must sit outside loops or in receive-driven loops. The valve decompressed-size allocation is a recorded known finding.",
+            TB + "The 64 MiB live total and allocations inside dependencies are not decided.", "DESIGN 4 C13, 3 E3"),
+    "C19": ("result-not-dropped dataflow on MIR for every local Result-returning call of the CLI, panic-site ledger over the CLI crate, provenance of XML element-name arguments",
+            "Decides that no writer/lookup Result in the CLI is discarded and main returns Result (errors exit non-zero), that the CLI's panic sites are discharged or reviewed, and flags data-derived XML element names (recorded known finding).",
+            TB + "Well-formedness/faithfulness of the emitted JSON/XML/BSON text and exit statuses are serialiser/run-time behaviour and not decided.", "DESIGN 4 C19"),
+    "C20": ("panic-site ledger and loop classification over the id-tests crate, bounded-recursion rule on the typed HIR",
+            "Enumerates every panic site of the naming checker from MIR; each is discharged, reviewed with anchors, or (the two explicit panics on <digits>-<text> names, probe-confirmed) a recorded known finding; loops are iterator-driven and the single recursion is bounded by is_mod_name.",
+            TB + "The accept-iff-expected-id clause is value-level and not decided.", "DESIGN 4 C20"),
     "C15": ("typed-HIR field-mapping extraction over every CommonResponse/CommonPlayer impl enumerated from the trait-impl index, compared with a same-name-or-reviewed-synonym rule; default as_json wiring",
             "For all impls (enumerated, so a new impl is checked automatically) every accessor must return the same-named (or reviewed synonym) field of its own type, as_json must wire each JSON field to the same-named accessor, as_original must wrap self.",
             TB + "Value equality at run time and serde's rendering are not decided.", "DESIGN 4 C15"),
